@@ -1598,7 +1598,7 @@ func main() {
 		fmt.Fprintln(os.Stderr, "need -out")
 		os.Exit(2)
 	}
-	w, err := casefile.New(*out, "C10", "From Coq Require Import Uint63.\nFrom C10 Require Import Model ModelMeta Spec CaseDefs.", 250)
+	w, err := casefile.New(*out, "C10", "From Coq Require Import Uint63 ZArith.\nFrom C10 Require Import Model ModelMeta Spec CaseDefs.", 250)
 	if err != nil {
 		panic(err)
 	}
@@ -1726,6 +1726,7 @@ func main() {
 	for _, o := range outs {
 		consume(o)
 	}
+	runGen(w, rng.New(*seed^0x47454E10), *tier == "thorough")
 	w.Extra["buffer_sizes"] = func() []int {
 		var bs []int
 		for _, s := range specs {
